@@ -38,7 +38,7 @@ def hMetaSync (j : Json) : Except String Json := do
   let fwd := dedupAdj r.forwarded
   let fview : List VEnt := fwd.map fun s => { st := s, sha := ((view.find? (·.st.path = s.path)).map (·.sha)).getD [] }
   -- ids the model expects to be requested: the registered id of every forwarded regular entry that needs its content
-  let needPaths := (syncEvents o before fview).filterMap fun ev => match ev with
+  let needPaths := (syncEvents o before after fview).filterMap fun ev => match ev with
     | .add e | .modify e => (match fview.find? (·.st.path = e.path) with
         | some v => if v.st.canRequestData && v.st.linkname = [] then some e.path else none
         | none => none)
